@@ -133,7 +133,7 @@ impl Matcher {
                 } else {
                     first_bonus = bonus;
                 }
-                score += SCORE_MATCH + bonus;
+                score = score.saturating_add(SCORE_MATCH + bonus);
                 in_gap = false;
                 consecutive += 1;
                 if let Some(&next) = needle_iter.next() {
@@ -156,9 +156,10 @@ impl Matcher {
                 let penalty = PENALTY_GAP_START.saturating_add(
                     PENALTY_GAP_START.saturating_mul((start - 1).min(u16::MAX as usize) as u16),
                 );
-                score += MAX_PREFIX_BONUS.saturating_sub(penalty / PREFIX_BONUS_SCALE);
+                score = score
+                    .saturating_add(MAX_PREFIX_BONUS.saturating_sub(penalty / PREFIX_BONUS_SCALE));
             } else {
-                score += MAX_PREFIX_BONUS;
+                score = score.saturating_add(MAX_PREFIX_BONUS);
             }
         }
         score
